@@ -123,6 +123,15 @@ def _shadow_update(P, trace):
         pos = [int(x) for x in S["positions"]]
         adj = _adj(S)
         if sh["prev"] is not None:
+            act = [] if ev.action is None else [int(x) for x in np.asarray(ev.action)]
+            if len(set(act)) < len(act):
+                P.hit("mmst_same_target_chosen")
+                # ties are broken at random, the losers stay: at most one of the tied agents may have *entered* the node
+                for v in set(act):
+                    tied = [i for i in range(len(act)) if act[i] == v]
+                    entered = [i for i in tied if pos[i] == v and sh["prev"][i] != v]
+                    if len(tied) > 1 and len(entered) > 1 and np.asarray(S["node_types"])[v] == UTILITY:
+                        out.append(f"mmst_tie_single_winner: agents {entered} all entered utility node {v} in the same step")
             for i, (p0, p1) in enumerate(zip(sh["prev"], pos)):
                 if p0 != p1:
                     P.hit("mmst_moves_along_edges")
